@@ -3,6 +3,7 @@ import re
 from mir import Origins, Origin, strip, short_span, const_int
 from dtable import Walker, Unrecognised, pm, events_only, show, mentions, instrumented_body, ev_match
 
+THOROUGH_CONFIGS = ("release", "arbitrary")
 LEVEL = "proof"
 M = "stun_types::message::Message::<'a>::"
 ITER = ("call", r"Message::<'a>::iter_attributes$", [("param", "msg")])
